@@ -1270,15 +1270,26 @@ def replay(ck, path):
 
 
 META = {
-    "text": "Machine-checked theorems (coq/Props/C06.v) about Gallina models of the four in-memory fact stores and the "
-            "merged/teeing wrappers: for every hash function and every history of add, remove, contains, pattern query, "
-            "predicate listing, count and merge the multi-indexed array store answers exactly as a set of ground atoms; the "
-            "hash-keyed stores do so for every history without two distinct hash-equal atoms (and provably not otherwise); "
-            "wrappers over disjoint components refine the set of the union. The models are tied to factstore/factstore.go on "
-            "every run by replaying generated histories over 8 store configurations (all constant kinds, arities 0-3, "
-            "deliberate hash collisions for the array store; exhaustive for <= 4 writes on a 3-atom universe in the thorough "
-            "tier) on the Go stores, on the models inside Coq with the hash values Go reports, and on the set machine.",
+    "text": "Machine-checked theorems (coq/Props/C06.v, 23, all closed under the global context) about Gallina models of "
+            "the four in-memory fact stores and the merged/teeing wrappers: for every atom-hash and constant-hash function and "
+            "every history of add, remove, contains, pattern query, predicate listing, count and merge the multi-indexed "
+            "array store answers exactly as a set of ground atoms (array_refines_set, no hypothesis); the simple, indexed "
+            "and multi-indexed stores do so for every history without two distinct atoms of equal atom hash (and the simple "
+            "store provably not otherwise; its predicate listing is exact, the others list a superset: N8); a teeing or "
+            "merged store over in-memory stores of any kind filled by arbitrary histories, and generally over any components "
+            "that simulate sets, answers every history in the documented domain (Remove only from the write store, Merge "
+            "brings no atom of the read-only part) as the set of the disjoint union. The models are tied to "
+            "factstore/factstore.go on every run by replaying generated histories over 8 store configurations (all constant "
+            "kinds, arities 0-3, deliberate hash collisions for the array store; exhaustive for <= 4 writes on a 3-atom "
+            "universe in the thorough tier) on the Go stores, on the models inside Coq with the hash values Go reports, and "
+            "on the set machine. The temporal adapter is additionally run unpinned and pinned at an instant over temporal "
+            "stores (plain and teeing) that are also written directly with several intervals per atom, alone and inside "
+            "merged/teeing stores as the interpreter stacks them; there the Coq set machine judges membership and pattern "
+            "queries (each atom once) against the view derived from the (atom, interval) pairs (Run.C06.judge_a; no model "
+            "of the interval tree).",
     "note": "Trusted: Coq kernel + vm_compute; hand-written models tied to the code by differential replay only (sampled, "
             "exhaustive on a small universe); known findings F8 (hash-equal atoms), N7 (wrapper Merge duplicates), N8 "
-            "(emptied predicates stay listed) are avoided by the main stream and replayed by probes; fixes F10, N6 applied.",
+            "(emptied predicates stay listed) are avoided by the main stream and replayed by probes; fixes F10, N6 applied. "
+            "Adapter configurations: set-machine verdict only; the boolean of Adapter.Add and the count are judged only where "
+            "the adapter's documented meaning (novelty of the eternal interval, number of pairs) coincides with the set's.",
 }
